@@ -132,7 +132,7 @@ def run_shards(pid, tier, tcfg, variant, binary, wdir, seed, extra_env=None):
             "VERIF_TIER": tier,
             "VERIF_SHARD": str(i),
             "VERIF_NSHARDS": str(nshards),
-            "VERIF_SCALE": str(tcfg.get("scale", 1)),
+            "VERIF_SCALE": str(tcfg.get("scale", 1) * float(os.environ.get("VERIF_SCALE", "1") or "1")),
             "VERIF_SAVED": saved,
             "VERIF_BUILD": variant["name"],
         })
@@ -390,7 +390,7 @@ def manifest():
     for p in props:
         pid = p["id"]
         cfg = PROPS.get(pid)
-        if not cfg or cfg.get("disabled"):
+        if not cfg or cfg.get("disabled") or pid not in REGISTERED:
             na.append({"property_id": pid, "reason": (cfg or {}).get("disabled") or NOT_YET.get(pid, "check not built yet (work in progress)")})
             continue
         checks.append({
@@ -428,6 +428,10 @@ def manifest():
 
 
 NOT_YET = {}
+
+# Properties whose check has been reviewed, is silent on the unchanged tree at several seeds and has
+# caught seeded mutations; only these are claimed in MANIFEST.json.
+REGISTERED = ["C01", "C18", "C20"]
 
 
 def main(argv):
